@@ -4,7 +4,7 @@
    the after-rule matcher and print are arbitrary functions that may return or raise.
    Property theorems only; proofs are in Proofs/HookP.v. *)
 From Coq Require Import List Bool NArith String.
-From DippyV Require Import Base.Str Base.Verdict Gen.Tables Model.Hook Proofs.HookP.
+From DippyV Require Import Base.Str Base.Verdict Gen.Tables Model.Hook Model.HookView Proofs.HookP Proofs.HookViewP.
 Import ListNotations.
 
 Section Oracles.
@@ -102,7 +102,23 @@ Section Oracles.
     = wf_shell_run S G o_resolve o_load_config o_configure_logging o_log_decision o_analyze m s cwds.
   Proof. exact (wf_shell_run_spec S G o_resolve o_getcwd o_load_config o_configure_logging o_log_decision
                                   o_analyze o_gmatch o_words o_after_prep o_after_rule o_print). Qed.
+
+  (* (6) ONLY THE HOST-WRITTEN LEVEL OF THE PAYLOAD COUNTS.  host_view (Model/HookView.v) keeps of the payload the
+     top-level members named in HOOK_TOP_KEYS and, of a tool_input object, the members named in
+     HOOK_TOOL_INPUT_KEYS (both tables regenerated from dippy.py on every run) and nothing else.  The process -
+     stdout, exit status, traceback - is a function of that view: whatever else the payload holds, at any
+     depth, under any name (a permission_mode inside the model-written tool_input, a hook_event_name inside
+     tool_response, ...) cannot change the answer, for any flags, environment and behaviour of the oracles. *)
+  Theorem C06_host_view : forall setup e inp, main setup e (Ok (host_view inp)) = main setup e (Ok inp).
+  Proof. exact (main_view S G o_resolve o_getcwd o_load_config o_configure_logging o_log_decision
+                          o_analyze o_gmatch o_words o_after_prep o_after_rule o_print). Qed.
+  Theorem C06_host_level_only : forall setup e a b,
+    host_view a = host_view b -> main setup e (Ok a) = main setup e (Ok b).
+  Proof. exact (main_host_level_only S G o_resolve o_getcwd o_load_config o_configure_logging o_log_decision
+                                     o_analyze o_gmatch o_words o_after_prep o_after_rule o_print). Qed.
 End Oracles.
+Print Assumptions C06_host_view.
+Print Assumptions C06_host_level_only.
 Print Assumptions C06_total.
 Print Assumptions C06_one_object.
 Print Assumptions C06_allow_only.
@@ -149,6 +165,32 @@ Section Faults.
 End Faults.
 Print Assumptions C06_failures_monotone.
 
+(* ... and which additions are invisible to the view: (a) a member under any name the hook does not look up,
+   anywhere in the payload object; (b) a member INSIDE tool_input under any name but command / cwd; what tool_input
+   is never asked for is stated outright in (c).  The bypass test of C06_allow_only (bypass_of) reads the view. *)
+Theorem C06_decoy_top : forall n k v kv,
+  mem_str k HOOK_TOP_KEYS = false -> host_view (JObj (insert_at n (k, v) kv)) = host_view (JObj kv).
+Proof. exact decoy_top_inert. Qed.
+Theorem C06_decoy_tool_input : forall n k v kv,
+  mem_str k HOOK_TOOL_INPUT_KEYS = false -> host_view (JObj (decoy_in_tool_input n k v kv)) = host_view (JObj kv).
+Proof. exact decoy_tool_input_inert. Qed.
+(* the view is a normal form: member order and repeated members are gone by construction, and a tool_input that
+   holds nothing the hook reads is the same as none *)
+Theorem C06_view_empty_tool_input : forall n kv,
+  assoc $"tool_input" kv = None -> host_view (JObj (insert_at n ($"tool_input", JObj []) kv)) = host_view (JObj kv).
+Proof. exact view_empty_tool_input. Qed.
+Print Assumptions C06_view_empty_tool_input.
+Theorem C06_tool_input_read_set :
+  mem_str $"permission_mode" HOOK_TOOL_INPUT_KEYS = false /\ mem_str $"hook_event_name" HOOK_TOOL_INPUT_KEYS = false /\
+  mem_str $"tool_name" HOOK_TOOL_INPUT_KEYS = false /\ mem_str $"tool_input" HOOK_TOOL_INPUT_KEYS = false.
+Proof. exact tool_input_read_set. Qed.
+Theorem C06_bypass_host_level : forall inp, bypass_of (host_view inp) = bypass_of inp.
+Proof. exact bypass_of_view. Qed.
+Print Assumptions C06_decoy_top.
+Print Assumptions C06_decoy_tool_input.
+Print Assumptions C06_tool_input_read_set.
+Print Assumptions C06_bypass_host_level.
+
 (* Non-vacuity and the boundary of C06_total. *)
 Definition cfg0 : config unit unit :=
   {| c_shell := tt; c_mcp := []; c_after := []; c_after_mcp := []; c_log := tt |}.
@@ -186,4 +228,22 @@ Proof. vm_compute. reflexivity. Qed.
    `except Exception` clause - status 1 with a traceback.  This is Python's semantics, not a defect. *)
 Example C06_total_needs_exception_only :
   demo_main (fun _ _ _ => Raise (BaseOnly $"KeyboardInterrupt")) (fun _ _ => Ok tt) (Ok bash_ls) = crash.
+Proof. vm_compute. reflexivity. Qed.
+
+(* a bypass mode written into the tool call's own arguments is not a host declaration: the command is analysed *)
+Definition gemini_decoy : json :=
+  JObj [($"tool_name", JStr $"run_shell_command");
+        ($"tool_input", JObj [($"command", JStr $"rm -rf x"); ($"permission_mode", JStr $"bypassPermissions")]);
+        ($"cwd", JStr $"/w")].
+Example C06_example_decoy_view :
+  host_view gemini_decoy = host_view (tool_input_shape $"run_shell_command" (JStr $"rm -rf x") (JStr $"/w") []).
+Proof. vm_compute. reflexivity. Qed.
+Example C06_example_decoy_bypass :
+  demo_main (fun _ _ _ => Ok ($"ask", $"rm")) (fun _ _ => Ok tt) (Ok gemini_decoy) = done [J (envelope Gemini Ask $"rm")].
+Proof. vm_compute. reflexivity. Qed.
+(* ... while the same mode at the top level, where the host writes it, is one *)
+Example C06_example_host_bypass :
+  demo_main (fun _ _ _ => Ok ($"ask", $"rm")) (fun _ _ => Ok tt)
+            (Ok (tool_input_shape $"run_shell_command" (JStr $"rm -rf x") (JStr $"/w") [($"permission_mode", JStr $"bypassPermissions")]))
+  = done [J (envelope Gemini Allow $"bypassPermissions")].
 Proof. vm_compute. reflexivity. Qed.
